@@ -379,19 +379,36 @@ class View:
                     out.append(k)
         return out
 
-    def degenerate(self) -> Optional[str]:
-        """A slot that just received a term with a zero coefficient or with no variable at all."""
-        for kind in ("C", "L"):
-            slot = self.recent.get(kind)
-            if not slot:
-                continue
-            c = self.pool[slot]
-            tls = c["C"][2:4] if "C" in c else [c]
-            for tl in tls:
-                for t in tl["TL"]:
-                    if not t["T"] or any(isinstance(v, list) and v[1] in ("0x0.0p+0", "-0x0.0p+0") for _k, v in t["T"]):
-                        return slot
-        return None
+    def _degenerate_vars(self, slot: str) -> Optional[List[str]]:
+        """None if the slot holds nothing degenerate; else the variables that carry a zero coefficient (maybe none)."""
+        c = self.pool[slot]
+        tls = c["C"][2:4] if "C" in c else [c]
+        found = False
+        zero: List[str] = []
+        for tl in tls:
+            for t in tl["TL"]:
+                if not t["T"]:
+                    found = True
+                for k, v in t["T"]:
+                    if isinstance(v, list) and v[1] in ("0x0.0p+0", "-0x0.0p+0"):
+                        found = True
+                        if k not in zero:
+                            zero.append(k)
+        return zero if found else None
+
+    def degenerate(self) -> Tuple[Optional[str], List[str], bool]:
+        """(slot, zero-coefficient variables, is it the freshest result) for a slot holding a term with a zero
+        coefficient or with no variable at all; the freshest result is preferred."""
+        recent = [self.recent.get("C"), self.recent.get("L")]
+        for slot in [x for x in recent if x]:
+            z = self._degenerate_vars(slot)
+            if z is not None:
+                return slot, z, True
+        for slot in sorted(self.pool):
+            z = self._degenerate_vars(slot)
+            if z is not None:
+                return slot, z, False
+        return None, [], False
 
     def cvars(self, s: str) -> List[str]:
         return self.ins(s) + [o for o in self.outs(s) if o not in self.ins(s)]
@@ -422,9 +439,11 @@ def _lit(x: Any) -> Dict:
 def gen_step(rs, view: View, allowed_ops: List[str], weights: Optional[Dict[str, float]] = None) -> Dict:  # noqa: WPS231, WPS212
     w = [((weights or {}).get(o, 1.0)) for o in allowed_ops]
     name = rs.choices(allowed_ops, w)[0]
-    deg = view.degenerate()
+    deg, deg_zero, deg_fresh = view.degenerate()
     force_plain = False
-    if deg is not None and rs.random() < 0.6:
+    if deg is not None and rs.random() >= (0.6 if deg_fresh else 0.3):
+        deg = None
+    if deg is not None:
         # a degenerate shape was just created: eliminate / compare / compose on it before it is overwritten
         cand = ["quotient", "quotient_tactics", "compose", "compose_tactics", "c_simplify", "copy", "refines"] if deg.startswith("C") else ["elim_refine", "elim_relax", "tl_simplify", "tl_refines", "is_empty", "to_str_list"]
         cand = [o for o in cand if o in allowed_ops]
@@ -575,6 +594,8 @@ def gen_step(rs, view: View, allowed_ops: List[str], weights: Optional[Dict[str,
             elim = elim + _subset(rs, cvs, 0.3)
         elif r_el < 0.3:
             elim = list(vs) + _subset(rs, cvs, 0.5)  # more eliminated variables than usable context rows
+        if deg is not None and li == deg and deg_zero:
+            elim = list(dict.fromkeys(deg_zero + (elim if rs.random() < 0.5 else [])))  # eliminate what cancelled
         A["self"] = {"slot": li}
         A["ctx"] = {"slot": lj}
         A["vars"] = _lit([Var(x) for x in dict.fromkeys(elim)])
